@@ -110,6 +110,63 @@ func c30Run(r *vlib.Run, c c30Case, enc map[string][][]byte) {
 	}
 }
 
+// c30Reuse: encode blob A from a buffer, refill the SAME buffer in place with blob B (same
+// length, other contents), encode again, and decode both results from shard buffers that are
+// reused as well; every result is compared with what fresh buffers give.
+func c30Reuse(r *vlib.Run, k, m, ln int) {
+	c := c30Case{K: k, M: m, Len: ln, Pattern: 0, Note: "buffer-reuse"}
+	klass := fmt.Sprintf("k=%d,m=%d", k, m)
+	buf := make([]byte, ln)
+	we := 2 * k
+	var prevFlat []byte
+	sel := make([]int, 0, k)
+	for i := 0; i < k; i++ { // last original replaced by the first recovery shard
+		sel = append(sel, i)
+	}
+	sel[k-1] = k
+	for round := 0; round < 3; round++ {
+		pat := round % 2 // A, B, A again
+		copy(buf, c30Data(ln, pat))
+		r.Eval()
+		var shards [][]byte
+		var err error
+		p, msg, _ := vlib.Guard(func() { shards, err = EncodeDataShards(buf, k, m) })
+		r.Transition()
+		if p || err != nil {
+			r.Violation("erasurecoding.EncodeDataShards", "encode-error", klass+";buffer-reuse", fmt.Sprintf("len=%d round=%d: %v %s", ln, round, err, msg), c)
+			return
+		}
+		fresh, _ := EncodeDataShards(append([]byte(nil), c30Data(ln, pat)...), k, m)
+		for i := range fresh {
+			if !bytes.Equal(fresh[i], shards[i]) {
+				r.Violation("erasurecoding.EncodeDataShards", "result-depends-on-earlier-call", klass+";buffer-reuse",
+					fmt.Sprintf("len=%d: encoding blob #%d from a buffer that previously held another blob of the same length gives shard %d = %x…, a fresh buffer gives %x…", ln, round, i, shards[i][:min(8, len(shards[i]))], fresh[i][:min(8, len(fresh[i]))]), c)
+				return
+			}
+		}
+		padded := append([]byte(nil), c30Data(ln, pat)...)
+		if len(padded)%we != 0 {
+			padded = append(padded, make([]byte, we-len(padded)%we)...)
+		}
+		shardSize := len(padded) / k
+		if prevFlat == nil || len(prevFlat) != k*shardSize {
+			prevFlat = make([]byte, k*shardSize)
+		}
+		for i, ix := range sel { // refill the same flat buffer in place
+			copy(prevFlat[i*shardSize:], shards[ix])
+		}
+		var out []byte
+		p, msg, _ = vlib.Guard(func() { out, err = DecodeShards(prevFlat, sel, k, m, shardSize) })
+		r.Transition()
+		r.Class(fmt.Sprintf("reuse k=%d round=%d", k, round))
+		if p || err != nil || !bytes.Equal(out, padded) {
+			r.Violation("erasurecoding.DecodeShards", "result-depends-on-earlier-call", klass+";buffer-reuse",
+				fmt.Sprintf("len=%d round=%d: decode from a reused shard buffer differs from the zero-padded blob (err=%v %s)", ln, round, err, msg), c)
+			return
+		}
+	}
+}
+
 func c31trim(ix []int) []int {
 	if len(ix) > 12 {
 		return append(append([]int(nil), ix[:12]...), -1)
@@ -199,6 +256,10 @@ func TestVerif_C30(t *testing.T) {
 	defer r.Finish()
 	var rc c30Case
 	if r.IsReplay(&rc) {
+		if rc.Note == "buffer-reuse" {
+			c30Reuse(r, rc.K, rc.M, rc.Len)
+			return
+		}
 		c30Run(r, rc, nil)
 		return
 	}
@@ -247,6 +308,20 @@ func TestVerif_C30(t *testing.T) {
 			r.Space(1)
 			c := c30Case{K: k, M: n - k, Len: ln, Pattern: 0, Indices: sets[nm], Note: nm}
 			c30Run(r, c, enc)
+		}
+	}
+	// re-entry part: results must be a function of the arguments' CONTENTS only. The same
+	// caller buffers are refilled in place and reused across consecutive calls (a memo keyed
+	// on, or retaining, a caller slice shows up here), for encode and for decode.
+	for _, km := range [][2]int{{2, 4}, {3, 6}, {342, 681}} {
+		k, m := km[0], km[1]
+		for _, ln := range []int{1, 2 * k, 2*k + 1, 4 * k} {
+			idx++
+			if !r.Mine(idx) {
+				continue
+			}
+			r.Space(1)
+			c30Reuse(r, k, m, ln)
 		}
 	}
 	r.Extra("full_code_selection_sets", len(sets))
